@@ -182,11 +182,13 @@ func runC01(c *fw.Ctx, idx int) fw.Result {
 		if e != -1 {
 			args = append(args, "--end", fmt.Sprint(e))
 		}
-		if pad {
-			args = append(args, "--pad")
-		}
+		args = boolFlag(args, "pad", pad, idx%80 == 0)
 		if wrap > 0 {
 			args = append(args, "--wrap", fmt.Sprint(wrap))
+		}
+		if idx%3 != 0 {
+			// the output file already exists and holds a longer earlier result
+			os.WriteFile(filepath.Join(dir, "out.fasta"), []byte(staleContent(len(expected)+300)), 0644)
 		}
 		br := fw.RunBin(c.Bin, args, nil, nil, "", 60*time.Second)
 		res.Evals++
